@@ -20,6 +20,10 @@ FORMS = ["lit", "local", "predef", "plit", "plocal", "ppredef", "ifexp", "call",
          "dinit", "dexpr", "copy", "compound", "default", "inif"]
 PROV_FORMS = ["dinit", "dexpr", "copy", "compound", "default", "inif"]
 BASE_FORM = {"plit": "lit", "plocal": "local", "ppredef": "predef"}
+# other spellings of a literal and a header sub-field: (variant, value type, form of the base cell)
+VARIANTS = [("int-neg", "INTEGER", "lit"), ("float-neg", "FLOAT", "lit"), ("rtime-m", "RTIME", "lit"), ("rtime-h", "RTIME", "lit"),
+            ("rtime-d", "RTIME", "lit"), ("rtime-y", "RTIME", "lit"), ("rtime-ms", "RTIME", "lit"), ("str-long", "STRING", "lit"),
+            ("bool-false", "BOOL", "lit"), ("hdr-field", "header", "local")]
 COERCE_CTX = ["arg", "ret", "par"]
 VALUE_TYPES = ["INTEGER", "FLOAT", "STRING", "BOOL", "RTIME", "TIME", "IP", "BACKEND", "ACL"]
 DEPTHS = [1, 2, 3]
@@ -190,6 +194,15 @@ def observe(tier="quick", only=None):
                 if form_exists(r, f):
                     reqs.append("cell O,%s,%s,%s,%s" % (op, l, r, f))
                     index.append((row, p, "cell"))
+    # literal spellings / header sub-field as right operand
+    o.variants = []
+    for op in ASSIGN_OPS + CMP_OPS:
+        for l in TYPES:
+            row = {"op": op, "lty": l, "lint": [None] * len(VARIANTS), "interp": [None] * len(VARIANTS)}
+            o.variants.append(row)
+            for p, (vid, _, _) in enumerate(VARIANTS):
+                reqs.append("cell X,%s,%s,%s" % (op, l, vid))
+                index.append((row, p, "cell"))
     # provenance of the LEFT operand (right operand: literal or plain local)
     o.opsleft = []
     for op in ASSIGN_OPS + CMP_OPS:
@@ -446,6 +459,11 @@ def write_obs(o):
     b.append("Definition obs_ops : list (string * string * N * N) := [\n")
     b.append(";\n".join("(%s, %s, %d, %d)" % (cs(r["op"]), cs(r["lty"]), lint_bits(r), interp_bits(r)) for r in o.ops))
     b.append("].\n")
+    b.append("(* other spellings of a literal (-5, -1.5, 5m, 1h, 2d, 1y, 500ms, long string, false) and a header sub-field as right\n"
+             "   operand: (operator, left type, linter accepts, simulator executes), bit = index in lit_variants *)\n")
+    b.append("Definition obs_op_variants : list (string * string * N * N) := [\n")
+    b.append(";\n".join("(%s, %s, %d, %d)" % (cs(r["op"]), cs(r["lty"]), lint_bits(r), interp_bits(r)) for r in o.variants))
+    b.append("].\n")
     b.append("(* the same with a provenance of the LEFT operand: (operator, left type, left provenance, linter, simulator) *)\n")
     b.append("Definition obs_ops_left : list (string * string * string * N * N) := [\n")
     b.append(";\n".join("(%s, %s, %s, %d, %d)" % (cs(r["op"]), cs(r["lty"]), cs(r["lprov"]), lint_bits(r), interp_bits(r)) for r in o.opsleft))
@@ -486,21 +504,38 @@ def positions(bits_, n):
     return [p for p in range(n) if bits_ >> p & 1]
 
 
+GAP_PARTS = ["gaps_tables ++ gaps_func_table ++ gaps_var_types ++ gaps_funcs ++ gaps_stmts", "gaps_vars", "gaps_ops",
+             "gaps_variants ++ gaps_ops_left ++ gaps_coerce", "gaps_wide", "gaps_inferred"]
+
+
 def gap_rows():
-    """the disagreeing cells as Coq computes them from the regenerated tables (Model/TablesGaps.v);
-    returns (rows, domain sizes, coqc log)"""
-    src = os.path.join(V.BUILD, "C05PrintGaps.v")
-    with open(src, "w") as f:
-        f.write("From Coq Require Import NArith List String.\nFrom Falco Require Import Model.TablesGaps.\nImport ListNotations.\n"
-                "Open Scope N_scope.\nOpen Scope string_scope.\nEval vm_compute in all_gap_rows.\nEval vm_compute in domain_sizes.\n")
-    rc, out = V.sh(["timeout", "2400", "coqc", "-R", V.COQ, "Falco", "-o", os.path.join(V.BUILD, "C05PrintGaps.vo"), src], cwd=V.BUILD, timeout=2430)
-    if rc != 0:
-        return None, None, out
-    t = re.sub(r"\s+", " ", out)
-    first, _, second = t.partition(": list gap_row")
-    rows = [{"kind": a, "name": b, "at": c, "bits": int(d)} for a, b, c, d in re.findall(r'\("([^"]*)", "([^"]*)", "([^"]*)", (\d+)\)', first)]
-    sizes = {a: int(b) for a, b in re.findall(r'\( ?"([^"]*)", (\d+)\)', second)}
-    return rows, sizes, out
+    """the disagreeing cells as Coq computes them from the regenerated tables (Model/TablesGaps.v; the parts of
+    all_gap_rows are evaluated by separate coqc processes in parallel); returns (rows, domain sizes, coqc log)"""
+    head = ("From Coq Require Import NArith List String.\nFrom Falco Require Import Model.TablesGaps.\nImport ListNotations.\n"
+            "Open Scope N_scope.\nOpen Scope string_scope.\nOpen Scope list_scope.\n")
+    outs = [None] * (len(GAP_PARTS) + 1)
+
+    def work(i, body):
+        src = os.path.join(V.BUILD, "C05PrintGaps%d.v" % i)
+        with open(src, "w") as f:
+            f.write(head + body)
+        outs[i] = V.sh(["timeout", "2400", "coqc", "-R", V.COQ, "Falco", "-o", os.path.join(V.BUILD, "C05PrintGaps%d.vo" % i), src],
+                       cwd=V.BUILD, timeout=2430)
+    ts = [threading.Thread(target=work, args=(i, "Eval vm_compute in (%s).\n" % part)) for i, part in enumerate(GAP_PARTS)]
+    ts.append(threading.Thread(target=work, args=(len(GAP_PARTS), "Eval vm_compute in domain_sizes.\n")))
+    for t in ts:
+        t.start()
+    for t in ts:
+        t.join()
+    if any(rc != 0 for rc, _ in outs):
+        return None, None, "\n".join(out for rc, out in outs if rc != 0)
+    rows = []
+    for rc, out in outs[:-1]:
+        t = re.sub(r"\s+", " ", out)
+        rows += [{"kind": a, "name": b_, "at": c, "bits": int(d)} for a, b_, c, d in re.findall(r'\("([^"]*)", "([^"]*)", "([^"]*)", (\d+)\)', t)]
+    second = re.sub(r"\s+", " ", outs[-1][1])
+    sizes = {a: int(b_) for a, b_ in re.findall(r'\( ?"([^"]*)", (\d+)\)', second)}
+    return rows, sizes, "\n".join(out for _, out in outs)
 
 
 def first_cell(row):
@@ -522,6 +557,8 @@ def first_cell(row):
     if k.startswith("op-"):
         r, f = op_positions()[positions(b, 140)[0]]
         return "O,%s,%s,%s,%s" % (n, a, r, f)
+    if k.startswith("opv-"):
+        return "X,%s,%s,%s" % (n, a, VARIANTS[positions(b, len(VARIANTS))[0]][0])
     if k.startswith("opl-"):
         r, f = op_positions()[positions(b, 140)[0]]
         lty, lprov = a.split(":")
@@ -546,11 +583,14 @@ WHAT = {
     "stmt-ref": "linter verdict differs from the documented scopes of the statement",
     "op-ref": "linter verdict differs from the assignment type table",
     "var-type": "type of the variable differs between linter and simulator",
+    "var-interp-regen": "the simulator's variable dispatch regenerated by the translator (Gen/InterpVars.v, Model/InterpVars.v) differs from the real simulator",
     "var-model": "lookup model (Model/LintTables.v) differs from the real linter",
     "func-model": "GetFunction model differs from the real linter",
     "stmt-model": "statement guard model differs from the real linter",
     "op-model": "operator model (Model/LintOps.v) differs from the real linter",
     "op-interp-model": "simulator decision model (Model/InterpAssign.v) differs from the real simulator",
+    "opv-lint": "the linter treats this spelling of the value differently from the plain literal / header of the same type",
+    "opv-interp": "the simulator treats this spelling of the value differently from the plain literal / header of the same type",
     "opl-model": "operator model differs from the real linter (left operand provenance)",
     "opl-interp-model": "simulator decision model differs from the real simulator (left operand provenance)",
     "opl-interp": "accepted by the linter, fails in the simulator (left operand provenance)",
@@ -568,6 +608,8 @@ WHAT = {
 
 def describe(row):
     k, n, a, b = row["kind"], row["name"], row["at"], row["bits"]
+    if k.startswith("opv-"):
+        return "%s %s %s [%s]: %s" % (a, n, "<value>", ", ".join(VARIANTS[p][0] for p in positions(b, len(VARIANTS))), WHAT.get(k, k))
     if k.startswith("op-") or k.startswith("opl-"):
         where = ", ".join("%s %s" % op_positions()[p] for p in positions(b, 140))
         return "%s %s %s [%s]: %s" % (a, n, "<value>", where, WHAT.get(k, k))
